@@ -49,36 +49,39 @@ theorem log_parts_destroy {σ : St} (h : Clock σ) (id : Nat) (t : Int) (es : Li
       · right; left; exact ⟨t', (memf _ _ _ _).mpr ht⟩
       · right; right; exact ⟨t', by simp [ht]⟩
 
-theorem destroy_nil_eq (b : Bool) (σ : St) (id : Nat) (hpc : σ.pc = .d1 id) (hp : σ.pending = []) :
+theorem destroy_nil_eq (b : Bool) (σ : St) (id : Nat) (hpc : σ.pc = .d1 id) (hp : σ.pending = [])
+    (hdf : σ.deferredFlag = false) :
     steps b 2 σ = { σ with inCrit := false, pc := .idle, log := .destroyed id σ.now :: σ.log } := by
-  simp [steps, step, hpc, hp]
+  simp [steps, step, leave, finish, hdf, hpc, hp]
 
 theorem destroy_other_eq (b : Bool) (σ : St) (id : Nat) (hpc : σ.pc = .d1 id) (e : Ev) (rest : List Ev)
-    (hp : σ.pending = e :: rest) (hne : e.id ≠ id) :
+    (hp : σ.pending = e :: rest) (hne : e.id ≠ id) (hdf : σ.deferredFlag = false) :
     steps b 2 σ = { σ with pending := eraseId id σ.pending, inCrit := false, pc := .idle,
                            log := .destroyed id σ.now :: σ.log } := by
-  simp [steps, step, hpc, hp, hne]
+  simp [steps, step, leave, finish, hdf, hpc, hp, hne]
 
 theorem destroy_eqdl_eq (σ : St) (id : Nat) (hpc : σ.pc = .d1 id) (e n : Ev) (rest : List Ev)
-    (hp : σ.pending = e :: n :: rest) (he : e.id = id) (hne : Time.ne false e.deadline n.deadline = false) :
+    (hp : σ.pending = e :: n :: rest) (he : e.id = id) (hne : Time.ne false e.deadline n.deadline = false)
+    (hdf : σ.deferredFlag = false) :
     steps false 2 σ = { σ with pending := eraseId id σ.pending, inCrit := false, pc := .idle,
                                log := .destroyed id σ.now :: σ.log } := by
-  simp [steps, step, hpc, hp, he, hne]
+  simp [steps, step, leave, finish, hdf, hpc, hp, he, hne]
 
 theorem destroy_last_eq (b : Bool) (σ : St) (id : Nat) (hpc : σ.pc = .d1 id) (e : Ev)
-    (hp : σ.pending = [e]) (he : e.id = id) :
+    (hp : σ.pending = [e]) (he : e.id = id) (hdf : σ.deferredFlag = false) :
     steps b 4 σ = { σ with pending := eraseId id σ.pending, sigOnce := Time.zero, remaining := Time.zero.toUs,
                            running := false, inCrit := false, pc := .idle,
                            log := .destroyed id σ.now :: .setitimer Time.zero.toUs :: σ.log } := by
   have hok : Time.zero.timevalOK = true := by decide
-  simp [steps, step, hpc, hp, he, hok]
+  simp [steps, step, leave, finish, hdf, hpc, hp, he, hok]
 
 /-- the value `remove_watchdog_event` re-arms the timer with -/
 def rearmTime (σ : St) (e n : Ev) : Time := (getTimer σ).add (n.deadline.sub e.deadline)
 
 theorem destroy_rearm_eq (σ : St) (id : Nat) (hpc : σ.pc = .d1 id) (e n : Ev) (rest : List Ev)
     (hp : σ.pending = e :: n :: rest) (he : e.id = id) (hne : Time.ne false e.deadline n.deadline = true)
-    (hnz : (rearmTime σ e n).isZero = false) (hok : (rearmTime σ e n).timevalOK = true) :
+    (hnz : (rearmTime σ e n).isZero = false) (hok : (rearmTime σ e n).timevalOK = true)
+    (hdf : σ.deferredFlag = false) :
     steps false 5 σ = { σ with
       pending := eraseId id σ.pending
       tsf := σ.tsf.add (σ.ltr.sub (getTimer σ))
@@ -89,7 +92,7 @@ theorem destroy_rearm_eq (σ : St) (id : Nat) (hpc : σ.pc = .d1 id) (e n : Ev) 
       pc := .idle
       log := .destroyed id σ.now :: .setitimer (rearmTime σ e n).toUs :: .getitimer σ.remaining :: σ.log } := by
   unfold rearmTime at hnz hok ⊢
-  simp [steps, step, hpc, hp, he, hne]
+  simp [steps, step, leave, finish, hdf, hpc, hp, he, hne]
   simp [getTimer] at hnz hok
   simp [getTimer, hnz, hok]
 
